@@ -260,7 +260,7 @@ func (c *Ctx) Finish() int {
 		"seed":        c.Seed,
 		"level":       c.Level,
 		"coverage":    cov,
-		"assumptions": c.assumptions,
+		"assumptions": append([]string{}, c.assumptions...),
 		"wall_s":      wall,
 		"violations":  len(c.violations),
 	}
